@@ -16,6 +16,15 @@ a variable/time, iteration, level and restart.  The cache is a dictionary
 `<name> rl=<rl>`.  A file exists iff it has a dataset, and a missing file and
 a missing dataset both read as `None`, so the dictionary is the whole state.
 Python exceptions (`list.index` ValueError, list index out of range) are `none`.
+
+Model/ReadCacheX.lean extends this model to one whole `read_data` call (`vars=[]`,
+`usecheckpoints`, a persistent catalogue with changing `skip_last`, restarts that lack
+variables, calls that raise half-way); it calls `stepComp`, `readCache`, `initMissing`
+of this file for every component a restart holds.  Two things of this file follow the
+code as it was before /repo e8cb585 and are superseded there: every catalogued restart
+is assumed to hold every requested component, and a call that finds nothing to read is
+`none` here (`readData`: "IndexError") whereas the code now returns `{}` (`readDataX`:
+`some []`).  The driver compares the two models on every call of the common domain.
 -/
 import AurelVerif.Model.Chunks
 namespace AurelVerif.ReadCache
